@@ -116,6 +116,9 @@ func (u *multiUpdateExecutor) beforeImage(ctx context.Context) ([]*types.RecordI
 
 	rows, err := u.rowsPrepare(ctx, selectSQL, selectArgs)
 	defer func() {
+		if rows == nil {
+			return
+		}
 		if err := rows.Close(); err != nil {
 			log.Errorf("rows close fail, err:%v", err)
 			return
@@ -153,11 +156,19 @@ func (u *multiUpdateExecutor) afterImage(ctx context.Context, beforeImages []*ty
 		return nil, err
 	}
 
+	if len(beforeImage.Rows) == 0 {
+		// no row matched: nothing changed, there is no row to read back
+		return []*types.RecordImage{types.NewEmptyRecordImage(metaData, u.parserCtx.SQLType)}, nil
+	}
+
 	// use
 	selectSQL, selectArgs := u.buildAfterImageSQL(beforeImage, *metaData)
 
 	rows, err = u.rowsPrepare(ctx, selectSQL, selectArgs)
 	defer func() {
+		if rows == nil {
+			return
+		}
 		if err := rows.Close(); err != nil {
 			log.Errorf("rows close fail, err:%v", err)
 			return
